@@ -51,6 +51,21 @@ func checkFreshOperation(c *Ctx, r *Report, rule string, pkgs []string) {
 						}
 					}
 					return true
+				case *ssa.Call:
+					// a helper of the same package that itself hands out a fresh object on every return
+					h := x.Call.StaticCallee()
+					if h == nil || h.Pkg != fn.Pkg || len(h.Blocks) == 0 || h == fn {
+						return false
+					}
+					fresh := true
+					allInstrs(h, func(in ssa.Instruction) {
+						if hr, ok := in.(*ssa.Return); ok {
+							if len(hr.Results) != 1 || !check(hr.Results[0], d+1) {
+								fresh = false
+							}
+						}
+					})
+					return fresh
 				}
 				return false
 			}
